@@ -204,9 +204,15 @@ def _run_lemma(args):
     for m in loaded:
         lemmas += list(getattr(m, "LEMMAS", []))
     name, hyps, goal = lemmas[idx][:3]
-    extract = lemmas[idx][3] if len(lemmas[idx]) > 3 else None
+    extract = lemmas[idx][3] if len(lemmas[idx]) > 3 and callable(lemmas[idx][3]) else None
+    hints = lemmas[idx][4] if len(lemmas[idx]) > 4 else {}
     ob = engine.Obligation(name, list(hyps), goal, "lemma", [], "lemma")
-    solve.discharge(ob, opts.get("z3_timeout_ms", 10000) * 3, opts.get("cvc5_timeout_s", 30), opts.get("cross_check", False))
+    if hints.get("solver") == "cvc5":      # string lemmas: cvc5's string solver first
+        cr, ct = solve.run_cvc5(solve.to_smt2(hyps, goal), opts.get("cvc5_timeout_s", 30) * 2)
+        if cr == "unsat":
+            ob.status, ob.backend, ob.time = "unsat", "cvc5", ct
+    if ob.status is None:
+        solve.discharge(ob, opts.get("z3_timeout_ms", 10000) * 3, opts.get("cvc5_timeout_s", 30), opts.get("cross_check", False))
     rec = {"name": ob.name, "kind": "lemma", "status": ob.status, "backend": ob.backend, "time": round(ob.time, 4),
            "tags": tags_of(ob.name), "trace": [], "nhyps": len(hyps), "line": None}
     if getattr(ob, "cvc5", None):
@@ -251,7 +257,7 @@ def run_structural(ctx):
 def run_modules(mods, opts, jobs=16):
     ctx, loaded, tasks, nlem = plan(mods)
     vm = opts.get("verify_modules")
-    if vm:
+    if vm and any(m in vm for m in mods):     # (a sidecar group that contains none of them is verified entirely)
         tasks = [t for t in tasks if ctx.contracts[t[0]].origin in vm]
     only = opts.get("only_tasks")
     if only:
